@@ -105,6 +105,7 @@ func runC01(c *Ctx) {
 					path = "put"
 				}
 				var line, obs string
+				var post func()
 				switch path {
 				case "put":
 					h := map[string]string{}
@@ -116,10 +117,25 @@ func runC01(c *Ctx) {
 					line, obs = c01Post(r, bucket, key, md, body)
 				case "copy":
 					// upload under a scratch key, then copy
-					l0, o0 := r.Put(bucket, "copy-src", map[string]string{}, body)
+					srcMd := c01Meta(c)
+					srcH := map[string]string{}
+					for k, v := range srcMd {
+						srcH[k] = v
+					}
+					l0, o0 := r.Put(bucket, "copy-src", srcH, body)
 					r.judgeProj(l0, o0, "c01:copy-src", ident, nil)
 					line, obs = r.Copy(bucket, "copy-src", bucket, key, md)
 					md["X-Amz-Copy-Source"] = "/" + bucket + "/copy-src"
+					// the source must still return exactly what was PUT on it
+					post = func() {
+						ls, os := r.Get(bucket, "copy-src")
+						r.judgeProj(ls, os, "c01:source-after-copy", ident, nil)
+						c.R.Evaluations++
+						if !sentSubset(srcMd, os) {
+							c.mismatch(Mismatch{Kind: "spec", Backend: kind, Case: append(append([]string{}, r.Lines...)), Finger: "c01:source-metadata-changed-by-copy",
+								Impl: trunc(os, 300), Spec: "the copy source still returns the headers it was PUT with: " + metaLine(srcMd)})
+						}
+					}
 				case "api":
 					line, obs = c01API(r, bucket, key, md, body)
 				}
@@ -141,6 +157,9 @@ func runC01(c *Ctx) {
 				if !sentSubset(md, og) || !sentSubset(md, oh) {
 					c.mismatch(Mismatch{Kind: "spec", Backend: kind, Case: append(append([]string{}, r.Lines...)), Finger: "c01:sent-metadata-not-returned",
 						Impl: trunc(og, 300), Spec: "every sent header returned unchanged: " + metaLine(md)})
+				}
+				if post != nil {
+					post()
 				}
 				c.hist("upload:" + path + ":ok")
 				c.nontrivial(fmt.Sprintf("%s|%s|%d|%s", kind, path, sz, key))
